@@ -93,10 +93,42 @@ def _intersect_cases(rng, n):
     return out
 
 
+def _groups(g):
+    return "[" + "; ".join(f"({int(k)}, {_nl(ps)})" for k, ps in g) + "]"
+
+
+def _codec_cases(rng, n):
+    """decode on arbitrary 64-bit words (sorted or not, duplicated headers allowed) and encode on structured (key, position)
+    columns; positions straddle the 18-position word boundary."""
+    out = []
+    for i in range(n):
+        if i % 2 == 0:
+            ws = []
+            for _ in range(rng.randint(0, 5)):
+                kind = rng.random()
+                if kind < 0.3:
+                    ws.append(rng.getrandbits(64))
+                else:
+                    ws.append((rng.randint(0, 5) << 36) | (rng.randint(0, 4) << 18) | rng.getrandbits(rng.choice([1, 4, 18])))
+            if rng.random() < 0.6:
+                ws.sort()
+            out.append({"req": C.sx(["decode", ws]), "lhs": f"decode {_nl(ws)}", "rhs": _groups})
+        else:
+            m = rng.randint(0, 8)
+            keys = sorted(rng.randint(0, 4) for _ in range(m))
+            pos = [rng.choice([0, 1, 17, 18, 19, 35, 36, 37, 262143]) if rng.random() < 0.6 else rng.randint(0, 80)
+                   for _ in range(m)]
+            out.append({"req": C.sx(["codec_all", keys, pos]),
+                        "lhs": f"let e := encode {_nl(keys)} {_nl(pos)} in (e, decode e)",
+                        "rhs": lambda r: f"({_nl(r[0])}, {_groups(r[1])})"})
+    return out
+
+
 PROVIDERS = {
     "C11": ("From SA Require Import Base.Prelude Solr.MM Solr.MM_Spec.\nOpen Scope Z_scope.\n", _mm_cases, 150),
     "C12": ("From SA Require Import Base.Prelude Kernels.Intersect.\nOpen Scope N_scope.\n", _intersect_cases, 120),
     "C14": ("From SA Require Import Base.Prelude Kernels.Intersect.\nOpen Scope N_scope.\n", _intersect_cases, 120),
+    "C13": ("From SA Require Import Base.Prelude Codec.Codec.\nOpen Scope N_scope.\n", _codec_cases, 120),
 }
 
 
